@@ -12,12 +12,16 @@ use crate::prelude::*;
 use crate::shim::*;
 
 pub mod stdlib {
-    pub use core::{cmp, convert, default, fmt, hash, mem, num, ops, iter, slice, str, f32, f64};
+    pub use core::{cmp, convert, default, fmt, hash, mem, ops, iter, slice, str, f32, f64};
+    pub mod num {
+        pub use core::num::{FpCategory, ParseFloatError, ParseIntError};
+        pub use crate::shim::{NonZeroU64, NonZeroU8, NonZeroUsize};
+    }
     pub use std::{string, borrow};
     pub use std::vec::Vec;
 }
 pub mod num_bigint { pub use crate::shim::{BigInt, BigUint, Sign, ParseBigIntError}; }
-pub mod num_traits { pub use crate::shim::{Zero, One, Signed, ToPrimitive}; }
+pub mod num_traits { pub use crate::shim::{Zero, One, Signed, ToPrimitive, CheckedSub}; }
 pub mod num_integer { pub use crate::shim::NumInteger as Integer; }
 
 use self::stdlib::cmp::{self, Ordering};
@@ -45,12 +49,28 @@ impl BigDecimal {
     pub open(crate) spec fn i(&self) -> int { self.int_val@ }
     /// scale
     pub open(crate) spec fn s(&self) -> int { self.scale as int }
+    pub open(crate) spec fn ival_ref(&self) -> &BigInt { &self.int_val }
 }
 impl<'a> BigDecimalRef<'a> {
     pub open(crate) spec fn i(&self) -> int { sgn(self.sign) * self.digits@ }
     pub open(crate) spec fn s(&self) -> int { self.scale as int }
-    /// representation invariant of a reference view (fields are private; every constructor keeps it)
+    /// sign field / digit magnitude (ghost accessors for contracts of pub fns)
+    pub open(crate) spec fn sg(&self) -> Sign { self.sign }
+    pub open(crate) spec fn dg(&self) -> int { self.digits@ as int }
+    pub open(crate) spec fn dref(&self) -> &'a BigUint { self.digits }
+    pub open(crate) spec fn spec_new(sign: Sign, digits: &'a BigUint, scale: i64) -> Self { BigDecimalRef { sign: sign, digits: digits, scale: scale } }
+    /// representation invariant of a reference view: fields are private and every constructor in
+    /// the crate must establish it (checked by Verus at each struct expression)
+    #[verifier::type_invariant]
     pub open(crate) spec fn wf(&self) -> bool { (self.sign == Sign::NoSign) <==> (self.digits@ == 0) }
+}
+
+pub proof fn lemma_ref_sign(sign: Sign, d: int)
+    requires d >= 0, (sign == Sign::NoSign) <==> (d == 0)
+    ensures sign_of(sgn(sign) * d) == sign, iabs(sgn(sign) * d) == d
+{
+    if sign == Sign::Plus { assert(1 * d == d); }
+    if sign == Sign::Minus { assert(-1 * d == -d); }
 }
 
 // derive(Clone) on the crate's structs (derives are dropped by R7; these bodies are what derive expands to)
@@ -63,6 +83,8 @@ impl<'a> Clone for BigDecimalRef<'a> {
     fn clone(&self) -> (ret: Self) ensures ret == *self { *self }
 }
 impl<'a> Copy for BigDecimalRef<'a> {}
+impl Eq for BigDecimal {}
+impl<'a> Eq for BigDecimalRef<'a> {}
 
 // ------------------------------------------------------------------ value relations (cross-multiplied, integers only)
 /// a.i * 10^-a.s == b.i * 10^-b.s
@@ -136,4 +158,148 @@ pub proof fn lemma_pair_is_round_mag(n: int, k: int, q: int, r: u8, tail: int, m
 /// the rounded value of a decimal at a lower scale, as a signed integer
 pub open spec fn round_int(i: int, k: int, mode: RoundingMode) -> int {
     isgn(i) * round_mag(iabs(i), k, mode, i < 0)
+}
+
+// ------------------------------------------------------------------ Into<BigDecimalRef> (generic operands)
+/// the reference view a generic operand converts to
+pub open spec fn into_ref<'a, T: Into<BigDecimalRef<'a>>>(x: T) -> BigDecimalRef<'a> {
+    IntoSpec::<BigDecimalRef<'a>>::into_spec(x)
+}
+/// the conversion is one of the crate's own (specified) conversions
+pub open spec fn into_ok<'a, T: Into<BigDecimalRef<'a>>>(x: T) -> bool {
+    <T as IntoSpec<BigDecimalRef<'a>>>::obeys_into_spec()
+}
+/// std's reflexive `impl<T> From<T> for T` is the identity (assumed)
+#[verifier::external_body]
+pub broadcast proof fn axiom_ref_into_self<'a>(x: BigDecimalRef<'a>)
+    ensures <BigDecimalRef<'a> as FromSpec<BigDecimalRef<'a>>>::obeys_from_spec(),
+            #[trigger] <BigDecimalRef<'a> as FromSpec<BigDecimalRef<'a>>>::from_spec(x) == x
+{}
+#[verifier::external_body]
+pub broadcast proof fn axiom_ref_into_self_obeys<'a>()
+    ensures #[trigger] <BigDecimalRef<'a> as FromSpec<BigDecimalRef<'a>>>::obeys_from_spec()
+{}
+
+// ------------------------------------------------------------------ comparison specs on reference views
+/// outside the representation invariant (unreachable for exec values) the result is left unspecified
+pub uninterp spec fn ref_eq_unspecified<'a, 'b>(a: BigDecimalRef<'a>, b: BigDecimalRef<'b>) -> bool;
+pub uninterp spec fn ref_cmp_unspecified<'a, 'b>(a: BigDecimalRef<'a>, b: BigDecimalRef<'b>) -> Ordering;
+pub open spec fn ref_eq_spec<'a, 'b>(a: BigDecimalRef<'a>, b: BigDecimalRef<'b>) -> bool {
+    if a.wf() && b.wf() { same_val(a.i(), a.s(), b.i(), b.s()) } else { ref_eq_unspecified(a, b) }
+}
+pub open spec fn ref_cmp_spec<'a, 'b>(a: BigDecimalRef<'a>, b: BigDecimalRef<'b>) -> Ordering {
+    if a.wf() && b.wf() { val_cmp(a.i(), a.s(), b.i(), b.s()) } else { ref_cmp_unspecified(a, b) }
+}
+
+// ------------------------------------------------------------------ value algebra: everything at a common scale M
+/// the integer i*10^(M-s): value of (i,s) in units of 10^-M   (M >= s)
+pub open spec fn val_at(i: int, s: int, m: int) -> int { i * pow10(m - s) }
+
+pub proof fn lemma_val_at_rescale(i: int, s: int, m: int, m2: int)
+    requires s <= m <= m2
+    ensures val_at(i, s, m2) == val_at(i, s, m) * pow10(m2 - m)
+{
+    lemma_pow10_add(m - s, m2 - m);
+    assert(i * (pow10(m - s) * pow10(m2 - m)) == (i * pow10(m - s)) * pow10(m2 - m)) by (nonlinear_arith);
+}
+pub proof fn lemma_val_at_neg(i: int, s: int, m: int)
+    ensures val_at(-i, s, m) == -val_at(i, s, m)
+{
+    assert((-i) * pow10(m - s) == -(i * pow10(m - s))) by (nonlinear_arith);
+}
+pub proof fn lemma_val_at_zero(s: int, m: int) ensures val_at(0, s, m) == 0 {}
+pub proof fn lemma_val_at_self(i: int, s: int) ensures val_at(i, s, s) == i {}
+
+pub proof fn lemma_cancel(x: int, y: int, p: int)
+    requires p > 0, x * p == y * p
+    ensures x == y
+{
+    assert(x == y) by (nonlinear_arith) requires p > 0, x * p == y * p;
+}
+
+/// is_sum <==> the sum equation at any common scale M >= all three scales
+pub proof fn lemma_sum_at(ri: int, rs: int, ai: int, a_s: int, bi: int, bs: int, m: int)
+    requires m >= rs, m >= a_s, m >= bs
+    ensures is_sum(ri, rs, ai, a_s, bi, bs) <==> val_at(ri, rs, m) == val_at(ai, a_s, m) + val_at(bi, bs, m)
+{
+    let m0 = imax(rs, imax(a_s, bs));
+    let p = pow10(m - m0);
+    lemma_pow10_pos(m - m0);
+    lemma_val_at_rescale(ri, rs, m0, m);
+    lemma_val_at_rescale(ai, a_s, m0, m);
+    lemma_val_at_rescale(bi, bs, m0, m);
+    let x = val_at(ri, rs, m0); let y = val_at(ai, a_s, m0) + val_at(bi, bs, m0);
+    assert((val_at(ai, a_s, m0) + val_at(bi, bs, m0)) * p == val_at(ai, a_s, m0) * p + val_at(bi, bs, m0) * p) by (nonlinear_arith);
+    if x * p == y * p { lemma_cancel(x, y, p); }
+}
+
+/// same_val <==> equal at any common scale
+pub proof fn lemma_same_at(ai: int, a_s: int, bi: int, bs: int, m: int)
+    requires m >= a_s, m >= bs
+    ensures same_val(ai, a_s, bi, bs) <==> val_at(ai, a_s, m) == val_at(bi, bs, m)
+{
+    let m0 = imax(a_s, bs);
+    let p = pow10(m - m0);
+    lemma_pow10_pos(m - m0);
+    lemma_val_at_rescale(ai, a_s, m0, m);
+    lemma_val_at_rescale(bi, bs, m0, m);
+    let x = val_at(ai, a_s, m0); let y = val_at(bi, bs, m0);
+    if x * p == y * p { lemma_cancel(x, y, p); }
+}
+
+/// val_cmp at any common scale
+pub proof fn lemma_cmp_at(ai: int, a_s: int, bi: int, bs: int, m: int)
+    requires m >= a_s, m >= bs
+    ensures val_cmp(ai, a_s, bi, bs) == ord_of(val_at(ai, a_s, m), val_at(bi, bs, m))
+{
+    let m0 = imax(a_s, bs);
+    let p = pow10(m - m0);
+    lemma_pow10_pos(m - m0);
+    lemma_val_at_rescale(ai, a_s, m0, m);
+    lemma_val_at_rescale(bi, bs, m0, m);
+    let x = val_at(ai, a_s, m0); let y = val_at(bi, bs, m0);
+    assert(x < y ==> x * p < y * p) by (nonlinear_arith) requires p > 0;
+    assert(x > y ==> x * p > y * p) by (nonlinear_arith) requires p > 0;
+}
+
+/// is_prod <==> product equation at a common scale: r at M, a at Ma, b at Mb with M == Ma + Mb
+pub proof fn lemma_prod_at(ri: int, rs: int, ai: int, a_s: int, bi: int, bs: int, ma: int, mb: int)
+    requires ma >= a_s, mb >= bs, ma + mb >= rs
+    ensures is_prod(ri, rs, ai, a_s, bi, bs) <==> val_at(ri, rs, ma + mb) == val_at(ai, a_s, ma) * val_at(bi, bs, mb)
+{
+    let m = ma + mb;
+    let m0 = imax(rs, a_s + bs);
+    let p = pow10(m - m0);
+    lemma_pow10_pos(m - m0);
+    lemma_val_at_rescale(ri, rs, m0, m);
+    lemma_val_at_rescale(ai * bi, a_s + bs, m0, m);
+    lemma_pow10_add(ma - a_s, mb - bs);
+    assert(val_at(ai, a_s, ma) * val_at(bi, bs, mb) == val_at(ai * bi, a_s + bs, m)) by (nonlinear_arith)
+        requires val_at(ai, a_s, ma) == ai * pow10(ma - a_s), val_at(bi, bs, mb) == bi * pow10(mb - bs),
+                 val_at(ai * bi, a_s + bs, m) == (ai * bi) * pow10(m - (a_s + bs)),
+                 pow10(m - (a_s + bs)) == pow10(ma - a_s) * pow10(mb - bs);
+    let x = val_at(ri, rs, m0); let y = val_at(ai * bi, a_s + bs, m0);
+    if x * p == y * p { lemma_cancel(x, y, p); }
+}
+
+/// difference: r == a - b
+pub open spec fn is_diff(ri: int, rs: int, ai: int, a_s: int, bi: int, bs: int) -> bool {
+    is_sum(ri, rs, ai, a_s, -bi, bs)
+}
+
+/// scale of a product: a.s + b.s, or an operand's own scale (one/zero shortcuts), possibly lowered by
+/// normalized() (at most the number of digits, < 2^60 by the size assumption)
+pub open spec fn mul_scale_ok(rs: int, a_s: int, bs: int) -> bool {
+    imin(a_s + bs, imin(a_s, bs)) - 0x1000_0000_0000_0000 <= rs <= imax(a_s + bs, imax(a_s, bs))
+}
+
+/// a value is zero iff its unscaled integer is
+pub proof fn lemma_same_zero(i: int, s: int)
+    ensures same_val(i, s, 0, 0) <==> i == 0
+{
+    let m = imax(s, 0);
+    lemma_pow10_pos(m - s);
+    assert(0 * pow10(m - 0) == 0);
+    if i != 0 { assert(i * pow10(m - s) != 0) by (nonlinear_arith) requires i != 0, pow10(m - s) > 0; }
+    else { assert(0 * pow10(m - s) == 0); }
 }
